@@ -259,6 +259,7 @@ def calibration_single_ended_solver(  # noqa: MC0001
         sections=sections, label="st", ref_temp_broadcasted=True, calc_per="all"
     )
     # cal_ref = cal_ref  # sort by increasing x
+    assert np.all(np.isfinite(cal_ref)), "Nan/inf in reference temperatures"
     data_gamma = 1 / (cal_ref.T.ravel() + 273.15)  # gamma
     coord_gamma_row = np.arange(nt * nx, dtype=int)
     coord_gamma_col = np.zeros(nt * nx, dtype=int)
@@ -1907,6 +1908,7 @@ def construct_submatrices(sections, nt, nx, ds, trans_att, x_sec):
             sections=sections, label="st", ref_temp_broadcasted=True, calc_per="all"
         )
     )
+    assert np.all(np.isfinite(cal_ref)), "Nan/inf in reference temperatures"
     data_gamma = 1 / (cal_ref.ravel() + 273.15)  # gamma
     coord_gamma_row = np.arange(nt * nx, dtype=int)
     coord_gamma_col = np.zeros(nt * nx, dtype=int)
